@@ -6,14 +6,15 @@ Local Open Scope Z_scope.
 
 (* memory-order obligations on the regenerated site tables: entry = store, THEN seq_cst fence; tick = seq_cst RMW
    (x86 branch) and relaxed RMW followed by a seq_cst fence (other branch); scan and allocator end = acquire loads;
-   exit = release store *)
+   exit = release store; release() of a locked accessor = release store *)
 Definition orders_ok : bool :=
-  match sites_lock, sites_unlock, sites_tick, sites_lwm, sites_id_end with
+  match sites_lock, sites_unlock, sites_tick, sites_lwm, sites_id_end, sites_release with
   | [(KLoad, _, _); (KStore, _, _); (KFence, o_fence, _)], [(KStore, o_exit, _)],
-    [(KFadd, o_tick, _); (KFadd, _, _); (KFence, o_tick_fence, _)], [(KLoad, o_scan, _)], [(KLoad, o_end, _)] =>
+    [(KFadd, o_tick, _); (KFadd, _, _); (KFence, o_tick_fence, _)], [(KLoad, o_scan, _)], [(KLoad, o_end, _)],
+    [(KStore, o_rel, _)] =>
     is_seq_cst o_fence && has_release o_exit && is_seq_cst o_tick && is_seq_cst o_tick_fence &&
-    has_acquire o_scan && has_acquire o_end
-  | _, _, _, _, _ => false
+    has_acquire o_scan && has_acquire o_end && has_release o_rel
+  | _, _, _, _, _, _ => false
   end.
 
 Lemma ep_orders_ok : orders_ok = true.
@@ -104,6 +105,7 @@ Proof.
     + intros t th h i Ht Hp. destruct (HT _ _ Ht) as [E _]. rewrite E in Hp. discriminate.
     + intros t th h i Ht Hp. destruct (HT _ _ Ht) as [E _]. congruence.
     + intros h i H. destruct (HH h) as (E & _). congruence.
+    + intros t th h i Ht Hp. destruct (HT _ _ Ht) as [E _]. congruence.
     + intros h o H. destruct (HH h) as (_ & _ & E). congruence.
     + intros h o H. destruct (HH h) as (_ & _ & E). congruence.
     + intros h o i H. destruct (HH h) as (_ & _ & E). congruence.
@@ -187,18 +189,6 @@ Proof.
   split; [apply (a_inj _ IA)|]. split; [apply (a_rng _ IA) | apply (a_own _ IA)].
 Qed.
 
-(* the full statement 'a released Accessor never holds the mark back' is false of the code: release() of an
-   Accessor whose region is open leaves the slot published *)
-Lemma ep_release_while_locked_refuted :
-  exists s, Reach false 0 [0%nat] 0 [] 0 [[OCreate 0; OLock 0; ORelease 0]] s /\ all_done s = true /\
-            (forall h, hidx (get_h s h) = None) /\ ver (get_slot s 0) <> SLOT_IDLE /\ rwl s = true.
-Proof.
-  eexists. split; [exists [0; 0; 0; 0; 0; 0; 0]%nat; reflexivity|].
-  split; [vm_compute; reflexivity|]. split.
-  - intros [|[|h]]; vm_compute; reflexivity.
-  - split; [vm_compute; discriminate | vm_compute; reflexivity].
-Qed.
-
 (* non-vacuity *)
 Lemma ep_wf_init_example : wf_init 0 [].
 Proof. split; [constructor | intros x []]. Qed.
@@ -223,7 +213,7 @@ Qed.
 Lemma Inv2_init : forall tlm e owners anext0 afree0 vsize0 progs, wf_init anext0 afree0 ->
   Inv2 (init tlm e owners anext0 afree0 vsize0 progs).
 Proof.
-  intros. split; [apply Inv_init; assumption|]. intros _ _. split.
+  intros. split; [apply Inv_init; assumption|]. intros _. split.
   - intros h i Hi. unfold get_h, init in Hi. cbn [handles] in Hi. destruct (init_handle (if tlm then seq 0 (length progs) else owners) h) as (E & _). congruence.
   - intros i _. unfold get_slot, init. cbn [slots]. rewrite init_slot. cbn. apply slot_init_spec.
 Qed.
@@ -246,16 +236,52 @@ Proof.
     + destruct (IH i) as [[h Hh]|Hn]; [left; exists (S h); exact Hh | right; intros [|h]; cbn; [congruence | apply Hn]].
 Qed.
 
-Lemma ep_released_never_blocks_partial : forall tlm e owners anext0 afree0 vsize0 progs s i, wf_init anext0 afree0 ->
-  Reach tlm e owners anext0 afree0 vsize0 progs s -> no_overflow s -> rwl s = false ->
+Lemma ep_released_never_blocks : forall tlm e owners anext0 afree0 vsize0 progs s i, wf_init anext0 afree0 ->
+  Reach tlm e owners anext0 afree0 vsize0 progs s -> no_overflow s ->
   (forall h, hidx (get_h s h) = Some i -> hdepth (get_h s h) = 0) ->
-  ver (get_slot s i) = SLOT_IDLE.
+  lt (get_slot s i) = 0 /\ ver (get_slot s i) = SLOT_IDLE.
 Proof.
-  intros tlm e owners anext0 afree0 vsize0 progs s i Hwf Hr Hov Hrwl Hun.
-  destruct (ep_inv2 _ _ _ _ _ _ _ _ Hwf Hr) as [(IA & _ & IBP) IR]. destruct (IBP Hov) as [IB _]. destruct (IR Hov Hrwl) as [R1 R2].
+  intros tlm e owners anext0 afree0 vsize0 progs s i Hwf Hr Hov Hun.
+  destruct (ep_inv2 _ _ _ _ _ _ _ _ Hwf Hr) as [(IA & _ & IBP) IR]. destruct (IBP Hov) as [IB _]. destruct (IR Hov) as [R1 R2].
   assert (Hl : lt (get_slot s i) = 0).
   { destruct (bound_dec (handles s) i) as [[h Hh]|Hn]; [rewrite (R1 _ _ Hh); apply Hun; exact Hh | apply R2; exact Hn]. }
+  split; [exact Hl|].
   destruct (Z.eq_dec (ver (get_slot s i)) SLOT_IDLE) as [E|E]; [exact E | pose proof (b_pub _ IB _ E); lia].
+Qed.
+
+(* a slot bound to no accessor - in particular one on the free list, or just handed out by create_accessor() and
+   not yet bound - has lock_times = 0 and is idle: a reused slot starts clean *)
+Lemma ep_unbound_slot_clean : forall tlm e owners anext0 afree0 vsize0 progs s i, wf_init anext0 afree0 ->
+  Reach tlm e owners anext0 afree0 vsize0 progs s -> no_overflow s ->
+  (forall h, hidx (get_h s h) <> Some i) -> lt (get_slot s i) = 0 /\ ver (get_slot s i) = SLOT_IDLE.
+Proof.
+  intros. eapply ep_released_never_blocks; eauto. intros h Hh. exfalso. eapply H2; eauto.
+Qed.
+Lemma ep_reused_slot_clean : forall tlm e owners anext0 afree0 vsize0 progs s t th h i, wf_init anext0 afree0 ->
+  Reach tlm e owners anext0 afree0 vsize0 progs s -> no_overflow s ->
+  thr s t th -> tpc th = CrEnsure h i -> lt (get_slot s i) = 0 /\ ver (get_slot s i) = SLOT_IDLE.
+Proof.
+  intros tlm e owners anext0 afree0 vsize0 progs s t th h i Hwf Hr Hov Ht Hpc.
+  eapply ep_unbound_slot_clean; eauto.
+  destruct (ep_inv _ _ _ _ _ _ _ _ Hwf Hr) as (IA & _ & _). destruct (a_cr _ IA _ _ _ _ Ht Hpc) as (_ & _ & Hno & _). exact Hno.
+Qed.
+(* the client's depth and the slot's lock_times agree for every live accessor *)
+Lemma ep_lock_times_is_depth : forall tlm e owners anext0 afree0 vsize0 progs s h i, wf_init anext0 afree0 ->
+  Reach tlm e owners anext0 afree0 vsize0 progs s -> no_overflow s ->
+  hidx (get_h s h) = Some i -> lt (get_slot s i) = hdepth (get_h s h).
+Proof.
+  intros tlm e owners anext0 afree0 vsize0 progs s h i Hwf Hr Hov Hi.
+  destruct (ep_inv2 _ _ _ _ _ _ _ _ Hwf Hr) as [_ IR]. destruct (IR Hov) as [R1 _]. apply R1. exact Hi.
+Qed.
+(* release() of a locked accessor: a reachable state after C0,L0,X0 - everything released, slot 0 idle again *)
+Lemma ep_release_while_locked_example :
+  exists s, Reach false 0 [0%nat] 0 [] 0 [[OCreate 0; OLock 0; ORelease 0]] s /\ all_done s = true /\
+            (forall h, hidx (get_h s h) = None) /\ ver (get_slot s 0) = SLOT_IDLE /\ lt (get_slot s 0) = 0 /\ afree s = [0%nat].
+Proof.
+  eexists. split; [exists [0; 0; 0; 0; 0; 0; 0; 0; 0]%nat; reflexivity|].
+  split; [vm_compute; reflexivity|]. split.
+  - intros [|[|h]]; vm_compute; reflexivity.
+  - repeat split; vm_compute; reflexivity.
 Qed.
 
 Lemma ep_tick_spec : tick_ret = tick_inc /\ tick_inc = 1.
